@@ -4,6 +4,10 @@ import LyModel.Valid.LemmasImplicit
 import LyModel.Valid.LemmasLoop
 import LyModel.Valid.WellFormed
 import LyModel.Valid.LemmasNpCont
+import LyModel.Valid.LemmasCaseStable
+import LyModel.Valid.LemmasNpValidate
+import LyModel.Valid.LemmasCaseExact
+import LyModel.Valid.LemmasCaseGood
 /-!
 # C07 — validation is an idempotent normalisation whose reported changes are exact
 
@@ -43,13 +47,55 @@ example :
 /-- **`implicit_exact`** (one sibling level, the schema nodes that are not choices): `lyd_new_implicit` keeps every node that was
 there; afterwards a schema node has an instance iff it had one or is a node that gets implicit data — a non-presence container, a
 leaf with a default, a leaf-list with defaults, not state data under `LYD_IMPLICIT_NO_STATE` (RFC 7950 §7.5.1, §7.6.1, §7.7.2) — and
-every node that was not there before is such an implicit node: flagged default only, without children.  (Through choices: the law
-`implicit` of tools/checks/c07.py compares libyang with `rfcComplete`; findings F180, F188.) -/
+every node that was not there before is such an implicit node: flagged default only, without children.  (Through choices:
+`implicit_exact_choice` below; the whole tree against `rfcComplete` is the law `implicit` of tools/checks/c07.py; findings F180, F188.) -/
 theorem implicit_exact (S : Schema) (o : VOpts) (cx : Cx) (ks : List STree) (sibs : List DNode) :
     (∀ x ∈ sibs, x ∈ (implNodes S o cx ks sibs).1) ∧
     (∀ sid, hasInst (implNodes S o cx ks sibs).1 sid = (hasInst sibs sid || ks.any (fun k => wantsImplicit o k && k.sid == sid))) ∧
     (∀ x ∈ (implNodes S o cx ks sibs).1, x ∈ sibs ∨ (x.flags = { dflt := true } ∧ x.kids = [] ∧ ks.any (·.sid == x.sid) = true)) :=
   ⟨implNodes_mono S o cx ks sibs, implNodes_hasInst S o cx ks sibs, implNodes_out S o cx ks sibs⟩
+
+/-- **`implicit_exact` through choices** (one sibling level — the children of a data node or the top level —, choices and cases in
+any nesting; the repaired variant of F180): `lyd_new_implicit` keeps every node that was there; every node that was not there is
+flagged default only and has no children; and afterwards a schema node has an instance **iff** it had one or is *in use*
+(`wantL`): a node that gets implicit data (`wantsImplicit`: non-presence container, leaf with a default, leaf-list with defaults,
+not state data under `LYD_IMPLICIT_NO_STATE`) that is a direct child of the level, or sits in the **selected** case of a choice of the
+level (`wantChoice_sel`, `selCase`: the first case that has data, else — no case of the choice has data — the default case; RFC 7950
+§7.9.3), recursively through the choices nested in that case — judged on the instances present BEFORE the call (what is created
+for one choice does not change the selection in another: the data nodes of the level have different ids, `Nodup`).  Hypotheses:
+the children of choices are cases (`kindsOkL`) and the ids differ; both decidable, true of every parsed schema. -/
+theorem implicit_exact_choice (X : SchemaX) (o : VOpts) (cx : Cx) (ks : List STree) (sibs : List DNode)
+    (hq : X.q.implicitInnerCase = false) (hk : kindsOkL ks = true) (hnd : (dataSidsL ks).Nodup) :
+    (∀ x ∈ sibs, x ∈ (implL X o cx ks sibs).1) ∧
+    (∀ sid, hasInst (implL X o cx ks sibs).1 sid = (hasInst sibs sid || wantL o (hasInst sibs) ks sid)) ∧
+    (∀ x ∈ (implL X o cx ks sibs).1, x ∈ sibs ∨ (x.flags = { dflt := true } ∧ x.kids = [])) :=
+  ⟨implL_keeps X o cx ks sibs, implL_exact X o cx hq ks hk hnd sibs, implL_onlyAdds X o cx ks sibs⟩
+
+/-- schema of the witness F180: `choice o { case a { choice i { case x { leaf u; } } leaf d { default "9"; } } }` -/
+def S180 : Schema := { modName := "m", nodes := [
+  { depth := 0, kind := .choice, name := "o" },
+  { depth := 1, kind := .case, name := "a" },
+  { depth := 2, kind := .choice, name := "i" },
+  { depth := 3, kind := .case, name := "x" },
+  { depth := 4, kind := .leaf, name := "u" },
+  { depth := 2, kind := .leaf, name := "d", dflts := [[57]] }] }
+def X180 (defect : Bool) : SchemaX := { SchemaX.ofSchema S180 with q := { Quirks.fixed with implicitInnerCase := defect } }
+
+/-- non-vacuity: with `u` set, case `a` is selected and its default `d` (schema id 5) is in use; the repaired code creates it -/
+example : (X180 false).q.implicitInnerCase = false ∧ kindsOkL (X180 false).top = true ∧ (dataSidsL (X180 false).top).Nodup ∧
+    wantL {} (hasInst [.term 4 {} [] [49]]) (X180 false).top 5 = true ∧
+    (implL (X180 false) {} {} (X180 false).top [.term 4 {} [] [49]]).1.map (·.sid) = [4, 5] := by
+  refine ⟨rfl, by decide, by decide, by decide, by decide⟩
+
+/-- **the defective variant F180 is not exact**: the node found (`u`) sits in the nested case `x`, only `x` is completed, the default
+`d` of the outer case `a` is not created although it is in use -/
+theorem implicit_exact_choice_F180_fails :
+    ¬ ∀ (X : SchemaX) (o : VOpts) (cx : Cx) (ks : List STree) (sibs : List DNode), kindsOkL ks = true → (dataSidsL ks).Nodup →
+      ∀ sid, hasInst (implL X o cx ks sibs).1 sid = (hasInst sibs sid || wantL o (hasInst sibs) ks sid) := by
+  intro h
+  have := h (X180 true) {} {} (X180 true).top [.term 4 {} [] [49]] (by decide) (by decide) 5
+  revert this
+  decide
 
 /-! ## auto-deletion -/
 
@@ -77,7 +123,8 @@ containers, lists in any nesting), every option set and EVERY tree that follows 
 `LYD_DEFAULT` its nodes carry (so: after any history of edits and validations): validating the result of a validation returns the
 same tree and an empty change set.  Hypotheses about the schema (`KidsLookupOk`: schema ids are unique; `NoChoiceX`, `NoCase`;
 the fuel of the walk covers the schema height) are decidable and hold for every parsed schema of the class; the theorem is
-stated for the model's continue-after-error semantics, so it does not even need the first validation to succeed. -/
+stated for the model's continue-after-error semantics, so it does not even need the first validation to succeed.  (Schemas with
+`choice` / `case`: `validate_idempotent_choice` below.) -/
 theorem validate_idempotent (X : SchemaX) (o : VOpts) (t : List DNode)
     (hl : KidsLookupOk X) (hnc : NoChoiceX X) (hc : NoCase X.base)
     (hp : placedL X X.top t = true) (hh : sheightL X.top ≤ walkFuel X t) :
@@ -120,6 +167,207 @@ example : KidsLookupOk Xx ∧ NoChoiceX Xx ∧ NoCase Xx.base ∧ placedL Xx Xx.
 example :
     let r := autodelStep Xx {} [.term 1 { dflt := true } [] [120]] (.term 1 { new := true } [] [119]) []
     (r.1.length, r.2.1, r.2.2.2.map (·.node.val)) = (0, false, [[120]]) := by decide
+
+/-! ## idempotence with `choice` / `case` -/
+
+/-- **`validate_idempotent` for schemas WITH `choice` / `case`** (any nesting, default cases, together with defaults, leaf-list
+defaults, containers and lists), in the repaired variants of F180 (`lyd_new_implicit` completes the case of THIS choice) and
+F188 (`lyd_validate_autodel_case_dflt` looks at every enclosing case), for every option set: validating the result of a
+validation returns the same tree and an empty change set — for EVERY tree that follows the schema, whatever flags `LYD_NEW` /
+`LYD_DEFAULT` its nodes carry, when **no non-presence container is a data member of a case** (`NoNpContInCase`); and for every
+schema of the class when the tree satisfies the non-presence container invariant (`npInvL`, kept by the edits of a history and
+by validation: `np_cont_dflt`, `np_cont_dflt_validate`) and **no new node is default-flagged** (`newExplL`: no empty non-presence
+container was just created with `lyd_new_inner`).  Without either the statement is false, also in the C code
+(`validate_idempotent_choice_fails`, finding F189).
+Hypotheses about the schema, all decidable (`lookupOk_of_B`, `caseWf_of_B`, `noNpContInCase_of_B`) and true of every parsed
+schema of the class: schema ids are unique (`KidsLookupOk`); on every data level the children of choices are cases, the data
+nodes have different ids and the cases around a node in the flat table are the ones on its path in the schema tree (`CaseWf`).
+Stated for the model's continue-after-error semantics, so the first validation need not succeed (two cases with data: `DupCase`
+is logged, both stay).  The proof: a validated tree is *stable* (`StableTop`: nothing new; `lyd_new_implicit` has nothing to do on
+any level, `implDoneX`; no default node is the leftover of a dead case, `NV`; non-presence container flags final), and every phase
+is the identity on a stable tree.  The two alternatives are what makes `NV` survive `lyd_validate_final_r`: either the containers
+whose flag it sets are in no case, or — the tree before it still satisfies the invariant (`prefinal_good`: an explicit
+container keeps an explicit child through `lyd_validate_cases`, because a new node is never removed there) — it sets none. -/
+theorem validate_idempotent_choice (X : SchemaX) (o : VOpts) (t : List DNode)
+    (hq1 : X.q.implicitInnerCase = false) (hq2 : X.q.autodelDirectCase = false)
+    (hl : KidsLookupOk X) (hw : CaseWf X) (hnp : NoNpContInCase X ∨ (npInvL X.base t ∧ newExplL t))
+    (hp : placedCL X X.top t = true) (hh : sheightL X.top ≤ walkFuel X t) :
+    (validate X o (validate X o t).tree).tree = (validate X o t).tree ∧
+    (validate X o (validate X o t).tree).evs = [] :=
+  validate_idempotent2 X o hq1 hq2 hl hw t hnp hp hh
+
+/-- the example schema with choices: `choice o { case a { leaf x; choice i { default d; case d { leaf u { default "9"; } } case e { leaf v; } }
+leaf da { default "9"; } } case b { leaf w; } } container n { choice p { default q; case q { leaf r { default "9"; } } case s { leaf t; } } }` -/
+def Sc : Schema := { modName := "ex7c", nodes := [
+  { depth := 0, kind := .choice, name := "o" },
+  { depth := 1, kind := .case, name := "a" },
+  { depth := 2, kind := .leaf, name := "x" },
+  { depth := 2, kind := .choice, name := "i", dfltCase := some "d" },
+  { depth := 3, kind := .case, name := "d" },
+  { depth := 4, kind := .leaf, name := "u", dflts := [[57]] },
+  { depth := 3, kind := .case, name := "e" },
+  { depth := 4, kind := .leaf, name := "v" },
+  { depth := 2, kind := .leaf, name := "da", dflts := [[57]] },
+  { depth := 1, kind := .case, name := "b" },
+  { depth := 2, kind := .leaf, name := "w" },
+  { depth := 0, kind := .container, name := "n" },
+  { depth := 1, kind := .choice, name := "p", dfltCase := some "q" },
+  { depth := 2, kind := .case, name := "q" },
+  { depth := 3, kind := .leaf, name := "r", dflts := [[57]] },
+  { depth := 2, kind := .case, name := "s" },
+  { depth := 3, kind := .leaf, name := "t" }] }
+def Xc : SchemaX := { SchemaX.ofSchema Sc with q := Quirks.fixed }
+/-- a history state: a new `x` of case `a` next to the old `w` of case `b`; in `n` the old default `r` of the default case `q` next to
+a new `t` of case `s` -/
+def tc : List DNode := [.term 2 { new := true } [] [49], .term 10 {} [] [50],
+  .inner 11 {} [] [.term 14 { dflt := true } [] [57], .term 16 { new := true } [] [51]]]
+
+/-- non-vacuity: the hypotheses hold for the example; the first validation removes the old case (`w`), creates the defaults of case
+`a` (`u` of the nested default case, `da`) and removes the leftover default `r` — 4 changes —, the second one does nothing -/
+example : Xc.q.implicitInnerCase = false ∧ Xc.q.autodelDirectCase = false ∧ KidsLookupOk Xc ∧ CaseWf Xc ∧
+    (NoNpContInCase Xc ∨ (npInvL Xc.base tc ∧ newExplL tc)) ∧ placedCL Xc Xc.top tc = true ∧ sheightL Xc.top ≤ walkFuel Xc tc ∧
+    (validate Xc {} tc).evs.map (·.node.sid) = [10, 5, 8, 14] ∧ (validate Xc {} (validate Xc {} tc).tree).evs.length = 0 := by
+  refine ⟨rfl, rfl, lookupOk_of_B Xc (by decide), caseWf_of_B Xc (by decide), Or.inl (noNpContInCase_of_B Xc (by decide)), by decide, by decide,
+    by decide, by decide⟩
+
+/-- **the normal form of validation** (same class and hypotheses as `validate_idempotent_choice`; not the `LYD_VALIDATE_PRESENT`
+call on an empty tree, which returns at once): a tree is left as it is by `lyd_validate`, with an empty change set, **iff** it is
+*stable* — and the result of every validation is.  Spelled out (`StableTop_spec`, `StableN_spec`), on the top level and on the
+children of every inner node: every schema node *in use* has an instance (`wantL`: default-bearing nodes in the selected cases,
+see `implicit_exact_choice`); no default-flagged node is the leftover of a case that does not exist and is not the default case
+(`NV`); no node carries `LYD_NEW`; and every explicit non-presence container has an explicit child. -/
+theorem validate_normal_form (X : SchemaX) (o : VOpts) (t : List DNode)
+    (hq1 : X.q.implicitInnerCase = false) (hq2 : X.q.autodelDirectCase = false)
+    (hl : KidsLookupOk X) (hw : CaseWf X) (hnp : NoNpContInCase X ∨ (npInvL X.base t ∧ newExplL t))
+    (hp : placedCL X X.top t = true) (hh : sheightL X.top ≤ walkFuel X t) (hpe : (o.present && t.isEmpty) = false) :
+    StableTop X o (validate X o t).tree ∧
+    (((validate X o t).tree = t ∧ (validate X o t).evs = []) ↔ StableTop X o t) ∧
+    (StableTop X o t ↔ (∀ sid, wantL o (hasInst t) X.top sid = true → hasInst t sid = true) ∧ NV X t ∧
+      (∀ n ∈ t, n.flags.new = false ∧ StableN X o true n)) :=
+  ⟨validate_stable2 X o hq1 hq2 hl hw t hnp hp hh hpe, validate_fixpoint_iff2 X o hq1 hq2 hl hw t hnp hp hh hpe, StableTop_spec X o t⟩
+
+/-- non-vacuity (schema `Sc`, tree `tc`): the input is not stable (its `x` is new), so the validation changes it -/
+example : (({} : VOpts).present && tc.isEmpty) = false ∧ ¬ StableTop Xc {} tc ∧ (validate Xc {} tc).evs.length = 4 := by
+  refine ⟨rfl, ?_, by decide⟩
+  intro h
+  have := ((StableTop_spec Xc {} tc).1 h).2.2 (.term 2 { new := true } [] [49]) (by simp [tc])
+  exact absurd this.1 (by decide)
+
+/-- schema of the witness F189: `choice ch1 { case a1 { container c { choice ch2 { case a2 { leaf y; } case b2 { container c2 { } } } } }
+case b1 { leaf w; } }` — the non-presence container `c` is a member of the non-default case `a1` -/
+def S189 : Schema := { modName := "m", nodes := [
+  { depth := 0, kind := .choice, name := "ch1" },
+  { depth := 1, kind := .case, name := "a1" },
+  { depth := 2, kind := .container, name := "c" },
+  { depth := 3, kind := .choice, name := "ch2" },
+  { depth := 4, kind := .case, name := "a2" },
+  { depth := 5, kind := .leaf, name := "y" },
+  { depth := 4, kind := .case, name := "b2" },
+  { depth := 5, kind := .container, name := "c2" },
+  { depth := 1, kind := .case, name := "b1" },
+  { depth := 2, kind := .leaf, name := "w" }] }
+def X189 : SchemaX := { SchemaX.ofSchema S189 with q := Quirks.fixed }
+/-- `c` with its old explicit `y`, and the empty `c2` just created with `lyd_new_inner` (new, default) -/
+def t189 : List DNode := [.inner 2 {} [] [.term 5 {} [] [118], .inner 7 { new := true, dflt := true } [] []]]
+
+/-- **full strength, false (finding F189, a genuine defect of the C code; replay: `corpus/valid/F189_np_container_in_case.c`)**:
+without `NoNpContInCase` and without `newExplL` (the invariant `npInvL` alone does not help) a validation need not leave a fixpoint,
+in the repaired variants too.  `lyd_validate_new` passes `c`
+(explicit) on the top level; then, inside `c`, the new default container `c2` of case `b2` makes `lyd_validate_cases` remove the old
+case (`y`), `c2` itself goes as leftover of a case without explicit data, and `c` — now empty — is flagged default
+(`lyd_np_cont_dflt_set`): the result keeps an empty default container of the non-default, non-selected case `a1`, which the SECOND
+validation deletes as leftover case default (the tree changes, the change set is empty). -/
+theorem validate_idempotent_choice_fails :
+    ¬ ∀ (X : SchemaX) (o : VOpts) (t : List DNode), X.q.implicitInnerCase = false → X.q.autodelDirectCase = false →
+      KidsLookupOk X → CaseWf X → npInvL X.base t → placedCL X X.top t = true → sheightL X.top ≤ walkFuel X t →
+      (validate X o (validate X o t).tree).tree = (validate X o t).tree ∧ (validate X o (validate X o t).tree).evs = [] := by
+  intro h
+  have hinv : npInvL X189.base t189 := by
+    simp only [t189, npInvL, npInvN, allD, and_true, true_and, List.all_cons, List.all_nil, DNode.flags]
+    exact ⟨fun _ => by decide, fun _ => by decide⟩
+  have := (h X189 {} t189 rfl rfl (lookupOk_of_B X189 (by decide)) (caseWf_of_B X189 (by decide)) hinv (by decide) (by decide)).1
+  have := congrArg List.length this
+  revert this
+  decide
+
+/-- non-vacuity of the second alternative (schema `S189`, where the non-presence container `c` IS a member of case `a1`): `c` with its
+explicit `y`, and a new explicit `w` of the other case `b1` — invariant and `newExplL` hold, the first validation removes `c`
+(recorded as the deletion of the node itself), the second one does nothing -/
+example :
+    let t : List DNode := [.inner 2 {} [] [.term 5 {} [] [118]], .term 9 { new := true } [] [119]]
+    ¬ NoNpContInCase X189 ∧ npInvL X189.base t ∧ newExplL t ∧ placedCL X189 X189.top t = true ∧ sheightL X189.top ≤ walkFuel X189 t ∧
+    (validate X189 {} t).evs.map (·.node.sid) = [2] ∧ (validate X189 {} (validate X189 {} t).tree).evs.length = 0 := by
+  refine ⟨?_, ?_, by simp [newExplL, newExplN], by decide, by decide, by decide, by decide⟩
+  · intro h
+    exact absurd (h.1 2 (by decide)) (by decide)
+  · simp only [npInvL, npInvN, allD, and_true, List.all_cons, List.all_nil, DNode.flags]
+    exact fun _ => by decide
+
+/-- schema of the witness F188: `choice o { case a { choice i { default d; case d { leaf u { default "9"; } } } leaf da { default "9"; } } }` -/
+def S188 : Schema := { modName := "m", nodes := [
+  { depth := 0, kind := .choice, name := "o" },
+  { depth := 1, kind := .case, name := "a" },
+  { depth := 2, kind := .choice, name := "i", dfltCase := some "d" },
+  { depth := 3, kind := .case, name := "d" },
+  { depth := 4, kind := .leaf, name := "u", dflts := [[57]] },
+  { depth := 2, kind := .leaf, name := "da", dflts := [[57]] }] }
+/-- the variant with the defect F188 (auto-deletion looks at the direct case only), F180 repaired -/
+def X188 : SchemaX := { SchemaX.ofSchema S188 with q := { Quirks.fixed with autodelDirectCase := true } }
+/-- the leftover default `u` of the default case `d` (the explicit data of the outer case `a` were deleted) -/
+def t188 : List DNode := [.term 4 { dflt := true } [] [57]]
+
+/-- **the defective variant F188 is not idempotent**: `u` survives the first validation (its direct case `d` is the default case of
+`i`), counts as data of the outer case `a`, whose default `da` is created; the second validation deletes `da` as leftover of the
+dead case `a` and `lyd_new_implicit` creates it again — a non-empty change set.  (The defective variant F180 alone does not break
+idempotence — exhaustive runs of the model over small schemas find no counterexample —, it breaks `implicit_exact`.) -/
+theorem validate_idempotent_choice_F188_fails :
+    ¬ ∀ (X : SchemaX) (o : VOpts) (t : List DNode), X.q.implicitInnerCase = false →
+      KidsLookupOk X → CaseWf X → NoNpContInCase X → npInvL X.base t → newExplL t → placedCL X X.top t = true →
+      sheightL X.top ≤ walkFuel X t →
+      (validate X o (validate X o t).tree).tree = (validate X o t).tree ∧ (validate X o (validate X o t).tree).evs = [] := by
+  intro h
+  have := (h X188 {} t188 rfl (lookupOk_of_B X188 (by decide)) (caseWf_of_B X188 (by decide)) (noNpContInCase_of_B X188 (by decide))
+    (by simp [t188, npInvL, npInvN]) (by simp [t188, newExplL, newExplN])
+    (by decide) (by decide)).2
+  have := congrArg List.length this
+  revert this
+  decide
+
+/-! ## auto-deletion of the leftover defaults of a case -/
+
+/-- **auto-deletion of leftover case defaults** (`lyd_validate_autodel_case_dflt` inside the node loop of `lyd_validate_new`, every
+schema and both variants): the loop leaves the explicit siblings as they are (same schema ids, same order — every deletion of the
+loop, superseded defaults included, hits default-flagged nodes only); every node it hands back was there (at most it lost
+`LYD_NEW`) and is not new any more; and **no default-flagged node that survives is the leftover of a dead case**
+(`caseDfltVictim`, judged on the result) — so every leftover is removed, whatever was deleted around it on the way. -/
+theorem autodel_case_exact (X : SchemaX) (o : VOpts) (cx : Cx) (sibs : List DNode) :
+    let R := (newLoop X o cx (sibs.length + 1) [] sibs none).1
+    (R.filter (fun x => !x.flags.dflt)).map (·.sid) = (sibs.filter (fun x => !x.flags.dflt)).map (·.sid) ∧
+    (∀ x ∈ R, ∃ y ∈ sibs, x = normNew y) ∧ (∀ x ∈ R, x.flags.new = false) ∧
+    (∀ x ∈ R, x.flags.dflt = true → caseDfltVictim X R x = false) := by
+  obtain ⟨h1, h2⟩ := newLoop_first X o cx (sibs.length + 1) sibs [] none (by omega)
+  have h3 := newLoop_out X o cx (sibs.length + 1) sibs [] none (by omega)
+  simp only [List.nil_append] at h1 h2
+  refine ⟨h1, ?_, ?_, ?_⟩
+  · intro x hx
+    rcases h3 x hx with h | h
+    · cases h
+    · exact h
+  · intro x hx
+    rcases h2 x hx with h | h
+    · cases h
+    · exact h.1
+  · intro x hx hd
+    rcases h2 x hx with h | h
+    · cases h
+    · rw [victim_congr X _ _ x h1]; exact h.2 hd
+
+/-- non-vacuity (schema `Sc`): the defaults `u` (nested default case `d`) and `da` of case `a` go when nothing explicit of `a` is left,
+and stay next to an explicit `x` -/
+example :
+    ((newLoop Xc {} {} 3 [] [.term 5 { dflt := true } [] [57], .term 8 { dflt := true } [] [57]] none).1.map (·.sid),
+     (newLoop Xc {} {} 4 [] [.term 2 {} [] [49], .term 5 { dflt := true } [] [57], .term 8 { dflt := true } [] [57]] none).1.map (·.sid))
+      = ([], [2, 5, 8]) := by decide
 
 /-! ## `lyd_is_default` against RFC 6243 / RFC 7950 §7.7.2 -/
 
@@ -264,18 +512,68 @@ example :
     ((applyCreate Sx [.plain 0, .plain 3] [.term 4 {} [] [121]] t0).map (beqL t1) = some true) ∧
     ((applyDelete Sx [.plain 0, .plain 3, .plain 4] t1).map (beqL t0) = some true) := by decide
 
+/-- **`np_cont_dflt` for the validation step itself**: for every schema (choices, cases, lists, … — no hypothesis), every variant of
+the code and every option set, `lyd_validate` hands back a tree that satisfies the invariant `npInvL` — every non-presence
+container carries `LYD_DEFAULT` iff all its children do — as soon as in the input every default-flagged non-presence container
+has default children only (`halfInvL`, one half of the invariant; a container wrongly left explicit is repaired by
+`lyd_np_cont_dflt_set` in `lyd_validate_final_r`).  In particular validation keeps the invariant.  The proof: `lyd_validate_new`
+hands back nodes that were there, `lyd_new_implicit` adds default nodes without children (`implL_onlyAdds`, all variants), the
+subtree walk keeps the flags of every node it passes, so a default container still has default children only when
+`lyd_validate_final_r` comes back to it, and an explicit one gets the flag there exactly when all its (finalised) children have it. -/
+theorem np_cont_dflt_validate (X : SchemaX) (o : VOpts) (t : List DNode) :
+    (halfInvL X.base t → npInvL X.base (validate X o t).tree) ∧ (npInvL X.base t → npInvL X.base (validate X o t).tree) :=
+  ⟨validate_npInv X o t, fun h => validate_npInv X o t (halfInvL_of_npInvL X.base t h)⟩
+
+/-- non-vacuity (schema `Sx`): `c` left explicit although its only child is a default `d` — the half invariant holds, the full one
+does not; the validation adds the other defaults below `c` and flags `c` default -/
+example :
+    let t0 : List DNode := [.inner 0 {} [] [.term 1 { dflt := true } [] [120]]]
+    halfInvL Sx t0 ∧ ¬ npInvL Sx t0 ∧ (validate Xx {} t0).tree.map (fun n => (n.flags.dflt, n.kids.length)) = [(true, 4)] := by
+  refine ⟨by simp [halfInvL, halfInvN], ?_, by decide⟩
+  intro h
+  simp only [npInvL, npInvN] at h
+  exact absurd (h.1.1 (by decide)) (by decide)
+
+/-- the trees a history reaches: built with `lyd_new_*` (`freshL`), then any sequence of creations below an existing node, removals
+and validations (the steps of `runHist`, LyModel/Valid/Hist.lean) -/
+inductive Reachable (X : SchemaX) (o : VOpts) : List DNode → Prop where
+  | fresh (t : List DNode) : Reachable X o (freshL X.base t)
+  | create {t t' : List DNode} (under : Addr) (sub : List DNode) : Reachable X o t → applyCreate X.base under sub t = some t' → Reachable X o t'
+  | delete {t t' : List DNode} (addr : Addr) : Reachable X o t → applyDelete X.base addr t = some t' → Reachable X o t'
+  | validate {t : List DNode} : Reachable X o t → Reachable X o (validate X o t).tree
+
+/-- **`np_cont_dflt` along every history** (what the law `dflt-flag` of tools/checks/c07.py observes after every step): in every tree
+a history of edits and validations reaches — every schema, every variant, every option set — every non-presence container carries
+`LYD_DEFAULT` iff all its children do. -/
+theorem np_cont_dflt_reachable (X : SchemaX) (o : VOpts) (t : List DNode) (h : Reachable X o t) : npInvL X.base t := by
+  induction h with
+  | fresh t => exact npInvL_fresh X.base t
+  | create under sub _ hc ih => exact np_cont_dflt_create X.base under sub _ _ ih hc
+  | delete addr _ hd ih => exact np_cont_dflt_delete X.base addr _ _ ih hd
+  | validate _ ih => exact validate_npInv X o _ (halfInvL_of_npInvL X.base _ ih)
+
+/-- non-vacuity (schema `Sx`): build the empty `c` (new and default), validate — a reachable tree; `c` stays default, with its four
+default children -/
+example : Reachable Xx {} (validate Xx {} (freshL Sx [.inner 0 {} [] []])).tree ∧
+    (validate Xx {} (freshL Sx [.inner 0 {} [] []])).tree.map (fun n => (n.flags.dflt, n.kids.length)) = [(true, 4)] :=
+  ⟨Reachable.validate (Reachable.fresh _), by decide⟩
+
 /-! ## not proved
 
--- OPEN: `validate_idempotent` for schemas with `choice` / `case` (the defective variants F180 / F188 violate it: a second
--- validation completes an outer case / removes an outer default case).  Law `idempotent` of tools/checks/c07.py on the
--- implementation, model correspondence through `hist`.
+-- (`validate_idempotent` for schemas with `choice` / `case`: proved for the repaired variants, for every tree under `NoNpContInCase`
+-- and for every schema on trees with `npInvL` and `newExplL` (`validate_idempotent_choice`); false without (F189,
+-- `validate_idempotent_choice_fails`) and for the defective variant F188 (`validate_idempotent_choice_F188_fails`).)
 -- OPEN: `valdiff_exact` (applying the returned diff to the input gives the output; the diff is empty iff nothing changed).
 -- The model composes `Valid.ValDiff.valDiff` with the `diff` component's `apply`; laws `valdiff-apply` / `valdiff-eq`
 -- evaluate it on the implementation; findings F177, F178, F179 are its counterexamples in the code.
--- OPEN: `np_cont_dflt` for the validation step itself (`validate` keeps `npInvL`: it removes and creates default nodes only,
--- `npSet` in `lyd_validate_final_r`); law `dflt-flag` checks the flags after every step of every history.
--- OPEN: `implicit_exact` through choices (default case chosen iff no case has data): `dflt_flag_sound` gives soundness
--- for all schemas, exactness is proved for the choice-free level (`implicit_exact`); law `implicit` against `rfcdefaults`.
+-- (`implicit_exact` through choices: proved level-wise for the repaired variant, `implicit_exact_choice`; false for the
+-- defective variant F180, `implicit_exact_choice_F180_fails`.)
+-- OPEN: `implicit_exact` for the WHOLE tree against `rfcComplete` (SpecDefaults.lean: recursion into containers and list entries,
+-- sibling order of the created nodes); law `implicit` of tools/checks/c07.py.
+-- (`autodel_exact` through choices: the step `autodel_exact`, and for a whole node loop `autodel_case_exact` — explicit siblings
+-- kept, no leftover of a dead case survives.)
+-- OPEN: which default nodes a whole `lyd_validate_new` call removes, as an equation (superseded defaults and case leftovers
+-- interleave through `last_dflt_schema`).
 -/
 
 end LyModel.Props.C07
